@@ -94,6 +94,11 @@ func (tr *FnTr) args(cc *ssa.CallCommon) []Val {
 func (tr *FnTr) staticCall(x ssa.Value, f *ssa.Function, cc *ssa.CallCommon, free []Val) Val {
 	name := calleeName(f)
 	args := tr.args(cc)
+	if name == "encoding/binary.Write" {
+		if v, ok := tr.binaryWrite(x, cc); ok {
+			return v
+		}
+	}
 	if m := libModels[name]; m != nil {
 		return m(tr, x, args, cc)
 	}
@@ -169,6 +174,7 @@ func (tr *FnTr) joinReturns(sub *FnTr, x ssa.Value) Val {
 		st.Mem = Ite(e.St.Reach, e.St.Mem, st.Mem)
 		st.Alloc = Ite(e.St.Reach, e.St.Alloc, st.Alloc)
 		st.Locks = Ite(e.St.Reach, e.St.Locks, st.Locks)
+		st.Ghost = Ite(e.St.Reach, e.St.Ghost, st.Ghost)
 		r := flattenResults(e.Results, T)
 		if len(res.L) > 0 {
 			res = tr.iteVal(e.St.Reach, r, res)
@@ -178,6 +184,7 @@ func (tr *FnTr) joinReturns(sub *FnTr, x ssa.Value) Val {
 	st.Mem = tr.vc.Def("mem_ret", st.Mem)
 	st.Alloc = tr.vc.Def("alloc_ret", st.Alloc)
 	st.Locks = tr.vc.Def("locks_ret", st.Locks)
+	st.Ghost = tr.vc.Def("ghost_ret", st.Ghost)
 	tr.st = st
 	if len(res.L) > 0 {
 		res = tr.defVal("ret", res)
@@ -236,7 +243,7 @@ func (tr *FnTr) contractCallInfo(x ssa.Value, f *calleeInfo, ct *FuncContract, a
 		tr.vc.Assumed = appendUniq(tr.vc.Assumed, "assumed contract: "+ct.Pkg+"."+name)
 	}
 	// post-state
-	post := State{Reach: tr.st.Reach, Mem: pre.Mem, Alloc: pre.Alloc, Locks: pre.Locks}
+	post := State{Reach: tr.st.Reach, Mem: pre.Mem, Alloc: pre.Alloc, Locks: pre.Locks, Ghost: pre.Ghost}
 	allocs := f.allocs
 	if !ct.Pure {
 		var frame []cellRange
@@ -253,16 +260,19 @@ func (tr *FnTr) contractCallInfo(x ssa.Value, f *calleeInfo, ct *FuncContract, a
 			post.Mem = tr.havocAllMem(pre.Mem, "call_"+f.name)
 			post.Alloc = tr.vc.Fresh("alloc_call", SInt)
 			tr.vc.Assume(Le(pre.Alloc, post.Alloc))
+			curEpoch++
 		} else if !ct.HasModifies {
 			// no frame declared: conservatively havoc everything reachable
 			post.Mem = tr.havocAllMem(pre.Mem, "call_"+f.name)
 			post.Alloc = tr.vc.Fresh("alloc_call", SInt)
 			tr.vc.Assume(Le(pre.Alloc, post.Alloc))
+			curEpoch++
 			tr.note("call to " + name + " without modifies clause: memory havocked")
 		} else {
 			if allocs {
 				post.Alloc = tr.vc.Fresh("alloc_call", SInt)
 				tr.vc.Assume(Le(pre.Alloc, post.Alloc))
+			curEpoch++
 			}
 			post.Mem = tr.havocMem(pre.Mem, pre.Alloc, frame, allocs, "call_"+f.name)
 		}
@@ -318,6 +328,7 @@ func (tr *FnTr) havocAll(why string) {
 	na := tr.vc.Fresh("alloc_abs", SInt)
 	tr.vc.Assume(Le(tr.st.Alloc, na))
 	tr.st.Alloc = na
+	curEpoch++
 	tr.assumeDataInv()
 }
 
@@ -714,10 +725,20 @@ func hasRecover(fn *ssa.Function) bool {
 // ---------- interface method calls ----------
 
 func invokeModelled(cc *ssa.CallCommon) bool {
+	recvT := cc.Value.Type().String()
+	if strings.Contains(recvT, "hash.Hash") || strings.Contains(recvT, "io.Writer") {
+		switch cc.Method.Name() {
+		case "Write", "WriteByte", "Sum", "Reset", "Size", "BlockSize":
+			return true
+		}
+	}
 	return false
 }
 
 func (tr *FnTr) invoke(x *ssa.Call, cc *ssa.CallCommon) Val {
+	if v, ok := tr.ghostInvoke(x, cc); ok {
+		return v
+	}
 	name := cc.Method.Name()
 	recvT := cc.Value.Type().String()
 	_ = recvT
